@@ -276,5 +276,5 @@ func init() {
 	})
 }
 
-func TestPropDHCPv4Handler(t *testing.T) { runProp(t, 4000, 80000, "dhcp4-handler") }
-func TestPropDHCPv4Opt82(t *testing.T)   { runProp(t, 4000, 80000, "dhcp4-opt82") }
+func TestPropDHCPv4Handler(t *testing.T) { runProp(t, 3000, 60000, "dhcp4-handler") }
+func TestPropDHCPv4Opt82(t *testing.T)   { runProp(t, 3000, 60000, "dhcp4-opt82") }
